@@ -7,6 +7,8 @@ import AfkakProofs.BrokerClient.Boot
 import AfkakProofs.BrokerClient.BootSingle
 import AfkakProofs.BrokerClient.Equiv
 import AfkakProofs.BrokerClient.Short
+import AfkakProofs.BrokerClient.Reent06
+import AfkakProofs.BrokerClient.Term
 import AfkakProps.Open.C06
 /-!
 # C06 — each request completes exactly once, with the response bearing its own id
@@ -254,6 +256,54 @@ theorem C06_reentrant_model_conservative (cfg : Cfg) (host port : Nat) (evs : Li
         = (trace cfg (St.init host port) evs).map (·.2) :=
   Afkak.BrokerClientR.traceR_flat cfg evs (Afkak.BrokerClientR.StR.init host port) rfl rfl (sinv_init host port)
 
+/-- C06 with RE-ENTRANT callbacks (`Afkak/BrokerClientR.lean`): whatever finite sequences of calls
+    (`close`, `disconnect`, cancel another request, `makeRequest`) the callbacks attached to request
+    Deferreds make when they fire — from inside `_sendQueued`'s loop, `close()`'s pop loop, between two
+    packets of one `dataReceived`, nested to any depth — and with an endpoint that may even connect
+    from inside `cancel()`: every Deferred fires only after it was handed out and at most once (no
+    second firing is ever attempted), `ok b` only with a packet carrying its id, and every Deferred
+    unfired when a `close()` goes ahead has fired when that call returns.  Hypothesis (decidable on the
+    trace): the fuel of the interpreter sufficed, i.e. no `fuelOut` marker; the driver runs with
+    100000 and would print it. -/
+theorem C06_reentrant_partial (cfg : Cfg) (fuel host port : Nat) (evs : List Afkak.BrokerClientR.EvR)
+    (hfuel : ∀ t ∈ Afkak.BrokerClientR.traceRWith cfg fuel (Afkak.BrokerClientR.StR.init host port) evs,
+      Afkak.BrokerClientR.ObR.fuelOut ∉ t.2) :
+    r06 (Afkak.BrokerClientR.traceRWith cfg fuel (Afkak.BrokerClientR.StR.init host port) evs) = true := by
+  simp only [r06]
+  rw [Afkak.BrokerClientR.r06_trace cfg fuel evs _ _ 0 (Afkak.BrokerClientR.top6_init host port) hfuel]
+  rfl
+
+/-! The hypothesis of `C06_reentrant_partial` is satisfiable with nested callbacks at work (fuel 20): the
+callback of request 1 cancels request 2 and closes the client from inside `_sendQueued`; the close fires
+request 3, whose callback makes a request on the closed client. -/
+example : ∀ t ∈ Afkak.BrokerClientR.traceRWith ⟨fun _ => 1⟩ 20 (Afkak.BrokerClientR.StR.init 1 9092)
+      [.make 1 false (some [.cancel 2, .close]), .make 2 false none, .make 3 true (some [.make 4 true]), .flat .connOk,
+       .flat .lost],
+    Afkak.BrokerClientR.ObR.fuelOut ∉ t.2 := by decide +kernel
+
+/-- The re-entrant interpreter terminates: for every configuration, start state and event list there is
+    an amount of fuel from which on no step of the run reaches the bottom of the interpreter (the
+    callbacks are finite lists of actions; a callback runs at most once; a potential — table size, live
+    entries, weight of the registered callbacks — bounds the nesting depth). -/
+theorem C06_reentrant_terminates (cfg : Cfg) (host port : Nat) (evs : List Afkak.BrokerClientR.EvR) :
+    ∃ N, ∀ fuel, N ≤ fuel →
+      ∀ t ∈ Afkak.BrokerClientR.traceRWith cfg fuel (Afkak.BrokerClientR.StR.init host port) evs,
+        Afkak.BrokerClientR.ObR.fuelOut ∉ t.2 :=
+  Afkak.BrokerClientR.fuel_suffices cfg evs _
+
+/-- C06 with RE-ENTRANT callbacks, unconditionally (formerly the open statement): for every
+    configuration and every event list of the re-entrant model — callbacks that are any finite lists
+    of `close` / `disconnect` / `cancel id` / `make id expect`, nested to any depth, with or without the
+    endpoint that connects from inside `cancel()` — from some amount of fuel on the stream monitor `r06`
+    accepts the trace: a Deferred fires only after it was handed out, at most once (no second firing
+    is even attempted), `ok b` only with a packet carrying its id, and every Deferred unfired when a
+    `close()` goes ahead has fired when that call returns. -/
+theorem C06_reentrant (cfg : Cfg) (host port : Nat) (evs : List Afkak.BrokerClientR.EvR) :
+    ∃ N, ∀ fuel, N ≤ fuel →
+      r06 (Afkak.BrokerClientR.traceRWith cfg fuel (Afkak.BrokerClientR.StR.init host port) evs) = true := by
+  obtain ⟨N, hN⟩ := C06_reentrant_terminates cfg host port evs
+  exact ⟨N, fun fuel hf => C06_reentrant_partial cfg fuel host port evs (hN fuel hf)⟩
+
 /-- Bootstrap connection, any number of requests, any event list: every request Deferred fires
     exactly once — with the packet carrying its id, by its own cancel, or with the connection-lost
     reason — and an over-long prefix drops the connection (the non-strict bootstrap monitor). -/
@@ -385,8 +435,10 @@ C06_bootstrap_single
 C06_bootstrap_no_crosstalk_counterexample
 C06_bootstrap_no_crosstalk_partial
 C06_reentrant_model_conservative
+C06_reentrant_partial
+C06_reentrant_terminates
+C06_reentrant
 -/
 /- OPEN_STATEMENTS
 C06_bootstrap_no_crosstalk
-C06_reentrant
 -/
